@@ -3,6 +3,7 @@ CONSTANTS
   Procs <- P3
   Types <- RecTypes
   ChildSeq <- RecChild
+  Invalid <- NoneInvalid
   Pkg <- RecPkg
   CallChoices <- RecCalls3
   Guard = "none"
